@@ -13,3 +13,11 @@ Print Assumptions fmt_fixed_point_of_tokens.
 Print Assumptions lex_of_print_frag.
 Print Assumptions fmt_preserves_ast.
 Print Assumptions fmt_fixed_point.
+From Ucg Require Import parse.Parse_Lex.
+Print Assumptions pp_lex.
+Print Assumptions lex_of_print_ok.
+Print Assumptions fmt_preserves_ast_all.
+Print Assumptions pp_stmts_raw_norm.
+Print Assumptions fmt_fixed_point_all.
+Print Assumptions fmt_fixed_point_all_raw.
+Print Assumptions fmt_fixed_point_pp_refuted.
